@@ -2,7 +2,7 @@
 From Coq Require Import Reals List Lra.
 From AhrsLib Require Import Base Rot.
 From AhrsGen Require Import C04gen_R.
-From AhrsProps Require Import C04_tac C04_quest C04_quest_cf.
+From AhrsProps Require Import C04_tac C04_quest C04_quest_cf C04_oleq.
 Import ListNotations.
 Open Scope R_scope.
 
@@ -29,3 +29,16 @@ Proof.
   exact (quest_closed_form w x y z sa sm cd sd Hq (conj Hd Hc) Ha Hm Hw HD).
 Qed.
 Print Assumptions C04_quest_closed_form.
+
+(* OLEQ, both frames: on consistent data the true attitude is a fixed point of the code's iteration q <- R q / |R q|
+   (R q = 3/2 q for the default weights [1,1]): started at q — the draw of the global RNG replaced by q for the call — estimate()
+   returns exactly q, for EVERY unit q, every dip in (-90,90) deg, all positive scalings.  Convergence from a random start within
+   the 21-step cap is NOT claimed (recorded finding). *)
+Theorem C04_oleq_fixed_point : forall w x y z sa sm cd sd,
+  w*w + x*x + y*y + z*z = 1 -> cd*cd + sd*sd = 1 -> 0 < cd -> 0 < sa -> 0 < sm ->
+  C04_oleq_fixed_NED_R w x y z sa sm cd sd = Val [w;x;y;z] /\ C04_oleq_fixed_ENU_R w x y z sa sm cd sd = Val [w;x;y;z].
+Proof.
+  intros w x y z sa sm cd sd Hq Hd Hc Ha Hm.
+  split; [exact (oleq_fixed_NED w x y z sa sm cd sd Hq (conj Hd Hc) Ha Hm)|exact (oleq_fixed_ENU w x y z sa sm cd sd Hq (conj Hd Hc) Ha Hm)].
+Qed.
+Print Assumptions C04_oleq_fixed_point.
